@@ -222,10 +222,12 @@ async def chaos_actor(ctx, w, st):
             from worlds.batch.driverworld import crash_driver, restart_driver
             st['crashes'] += 1
             st['driver_down'] = True
+            st['restart_task'] = None
             crash_driver(w)
             await asyncio.sleep(s.rint(1, 25))
-            st['driver_down'] = 'restarting'
-            await restart_driver(w)
+            # the restart is its own task: cancelling this actor (heal) must not cancel a boot that is under way
+            st['restart_task'] = asyncio.ensure_future(restart_driver(w))
+            await asyncio.shield(st['restart_task'])
             st['driver_down'] = False
 
 
@@ -327,12 +329,12 @@ def run(ctx):
             raise chaos.exception()
         chaos.cancel()
         await asyncio.sleep(0)
-        if st['driver_down'] is True:
+        if st['driver_down']:
             from worlds.batch.driverworld import restart_driver
-            await restart_driver(w)
-        elif st['driver_down'] == 'restarting':
-            while w.driver_app is None:
-                await asyncio.sleep(0.5)
+            if st.get('restart_task') is not None:
+                await st['restart_task']
+            else:
+                await restart_driver(w)
         st['driver_down'] = False
         if pending:
             d2, p2 = await asyncio.wait(pending, timeout=300)
